@@ -58,7 +58,7 @@ Definition set_sites : list site := [
   ((s "sharepoint2text/parsing/extractors/pdf/pdf_extractor.py"), (s "_TableExtractor._split_compound_words"), (1404)%Z, UMember);
   ((s "sharepoint2text/parsing/extractors/pdf/pdf_extractor.py"), (s "_TableExtractor._split_compound_words"), (1405)%Z, UMember);
   ((s "sharepoint2text/parsing/extractors/pdf/pdf_extractor.py"), (s "_TableExtractor.is_numeric_token"), (1304)%Z, UMember);
-  ((s "sharepoint2text/parsing/extractors/serialization.py"), (s "_deserialize_dataclass"), (222)%Z, UMember);
+  ((s "sharepoint2text/parsing/extractors/serialization.py"), (s "_deserialize_dataclass"), (200)%Z, UMember);
   ((s "sharepoint2text/parsing/extractors/util/omml_to_latex.py"), (s "<module>"), (157)%Z, UMember);
   ((s "sharepoint2text/parsing/extractors/util/zip_context.py"), (s "ZipContext.__init__"), (19)%Z, UMember);
   ((s "sharepoint2text/parsing/router.py"), (s "<module>"), (118)%Z, UMember);
